@@ -142,9 +142,10 @@ def handle_trace_string_global(parser, events):
     debugid = 0
     str_id = 0
     vstr = b''
-    lookup_events = []
     for event in events:
-        lookup_events.append(event)
+        if event.eventid != events[0].eventid:
+            # Another kernel trace record logged on the thread while the string is written out, not a chunk of it.
+            continue
         if event.func_qualifier & DgbFuncQual.DBG_FUNC_START.value:
             debugid = event.values[0]
             str_id = event.values[1]
@@ -154,7 +155,7 @@ def handle_trace_string_global(parser, events):
 
         if event.func_qualifier & DgbFuncQual.DBG_FUNC_END.value:
             break
-    event = TraceStringGlobal(lookup_events, debugid, str_id,
+    event = TraceStringGlobal(events, debugid, str_id,
                               vstr.replace(b'\x00', b'').decode(errors='backslashreplace'))
     if event.vstr:
         parser.global_strings[event.str_id] = event.vstr
@@ -182,14 +183,16 @@ def handle_trace_string_proc_exit(parser, events):
 
 
 def handle_trace_string_threadname(parser, events):
-    name = b''.join([e.data for e in events]).replace(b'\x00', b'').decode(errors='backslashreplace')
+    name = b''.join([e.data for e in events if e.eventid == events[0].eventid]).replace(b'\x00', b'').decode(
+        errors='backslashreplace')
     event = TraceStringThreadname(events, name)
     parser.tids_names[events[0].tid] = event.name
     return event
 
 
 def handle_trace_string_threadname_prev(parser, events):
-    name = b''.join([e.data for e in events]).replace(b'\x00', b'').decode(errors='backslashreplace')
+    name = b''.join([e.data for e in events if e.eventid == events[0].eventid]).replace(b'\x00', b'').decode(
+        errors='backslashreplace')
     event = TraceStringThreadnamePrev(events, name)
     parser.tids_names[events[0].tid] = event.name
     return event
